@@ -159,7 +159,11 @@ func c07(run *ev.Run, tier string) {
 			// several hundred entries: metadata members (.MTREE, md5sums, rpm header
 			// arrays) grow beyond the compressors' block sizes
 			sd := "src/many"
-			for k := 0; k < 600; k++ {
+			nmany := 600
+			if i == 5 {
+				nmany = 2600 // the .MTREE listing alone passes 256 KiB and 512 KiB (block sizes of parallel compressors)
+			}
+			for k := 0; k < nmany; k++ {
 				nd := &gen.Node{Rel: fmt.Sprintf("%s/d%02d/file-%04d.dat", sd, k%17, k), Kind: "file", Perm: 0o644, MTime: 1234567890 + int64(k), Size: 10 + k%50, Seed: uint64(k)}
 				c.Tree.Add(nd)
 			}
@@ -211,6 +215,34 @@ func c07(run *ev.Run, tier string) {
 		})
 	}
 	rebuildAll("second in-process build", 8)
+	// the same instant written with a zone offset (mtime: ...+05:30) is the same mtime
+	parallel(n, 8, func(i int) {
+		cc := cases[i]
+		if cc == nil || cc.c.Spec.MTime == 0 {
+			return
+		}
+		utc := "mtime: " + time.Unix(cc.c.Spec.MTime, 0).UTC().Format(time.RFC3339)
+		if !strings.Contains(cc.yaml, utc+"\n") {
+			return
+		}
+		zone := time.FixedZone("", []int{19800, -12600, 7200}[i%3])
+		y := strings.Replace(cc.yaml, utc+"\n", "mtime: "+time.Unix(cc.c.Spec.MTime, 0).In(zone).Format(time.RFC3339)+"\n", 1)
+		for _, f := range formats {
+			b0, ok := cc.base[f]
+			if !ok {
+				continue
+			}
+			res := buildYAML(y, f)
+			atomic.AddInt64(&builds, 1)
+			if res.Err != nil || res.Panic != "" {
+				run.Violate("C07/"+f+"/rebuild-error", map[string]any{"case": i, "how": "mtime written with a zone offset", "error": fmt.Sprint(res.Err)})
+				continue
+			}
+			if !bytes.Equal(res.Bytes, b0) {
+				run.Violate("C07/"+f+"/bytes-differ/mtime-written-with-a-zone-offset", diffDetail(cc, f, "mtime written with a zone offset", b0, res.Bytes))
+			}
+		}
+	})
 	old := runtime.GOMAXPROCS(0)
 	for _, g := range []int{1, 2, 3, 4, 8, 16} {
 		runtime.GOMAXPROCS(g)
